@@ -29,10 +29,16 @@ Record obs := { o_steps : list step_obs }.
 Definition onat_eqb : option nat -> option nat -> bool := option_eqb Nat.eqb.
 Definition lnat_eqb : list nat -> list nat -> bool := list_eqb Nat.eqb.
 Definition olnat_eqb : option (list nat) -> option (list nat) -> bool := option_eqb lnat_eqb.
+Definition tsobj_eqb (a b : tsobj) : bool :=
+  match a, b with
+  | TAware z x, TAware w y => Nat.eqb z w && Nat.eqb x y
+  | TNaive x, TNaive y | TOther x, TOther y => Nat.eqb x y
+  | _, _ => false
+  end.
 Definition tsv_eqb (a b : tsv) : bool :=
   match a, b with
   | TsNone, TsNone | TsFilled, TsFilled => true
-  | TsGiven x, TsGiven y => Nat.eqb x y
+  | TsGiven x, TsGiven y => tsobj_eqb x y
   | _, _ => false
   end.
 Definition oevent_eqb (a b : event otags) : bool :=
@@ -152,9 +158,11 @@ Definition Spec (i : input) (o : obs) : Prop :=
 (* ---------- well-formed inputs ---------- *)
 (* the set objects the caller passes and changes are its own: cells of `caller` *)
 Definition ref_okb (n : nat) (r : tagref) : bool := match r with TLoc l => Nat.ltb l n | _ => true end.
+(* a route code string splits into at least one (possibly empty) segment *)
+Definition route_okb (r : route) : bool := match r with Some [] => false | _ => true end.
 Definition op_okb (n : nat) (o : op) : bool :=
   match o with
-  | OStatus e => ref_okb n (v_tags e)
+  | OStatus e => ref_okb n (v_tags e) && route_okb (v_route e)
   | OMutate l _ => Nat.ltb l n
   | _ => true
   end.
